@@ -220,9 +220,9 @@ class E1Part:
             return c2.failures[0]
         return None
 
-    def replay_case(self, case):
-        job = {"family": "replay", "seed": 0, "props": self.props, "lockstep": False, "scen": case["scenario"],
-               "schedule": case["schedule"]}
+    def replay_case(self, case, props="own"):
+        job = {"family": "replay", "seed": 0, "props": self.props if props == "own" else props, "lockstep": False,
+               "scen": case["scenario"], "schedule": case["schedule"]}
         return run_job(job)
 
     def replay(self, ctx, data):
@@ -238,8 +238,9 @@ class E1Part:
         w = finding.get("witness")
         if not w:
             return {"fails": False}
-        r = self.replay_case(w)
-        hit = [fl for fl in r.get("fails", []) if fl[0] == self.id or fl[0] in self.props]
+        # a finding is a class of stuck / wrong runs: its witness is judged by every oracle
+        r = self.replay_case(w, props=None)
+        hit = list(r.get("fails", []))
         for kid, fls in r.get("known", {}).items():
             hit += fls
         return {"fails": bool(hit), "what": [list(h) for h in hit][:3], "end": r.get("end")}
